@@ -214,19 +214,17 @@ LOST = ("manual edit made after a temporary feature was assigned through an "
 
 def edit_after_settemp(evs):
     """evs: the steps before a refresh; True if, since the refresh before,
-    a manual edit was made on a level younger than one through which a
-    temporary feature had been assigned (that assignment refreshes the
-    older levels only)"""
-    seg, pend = [], None
+    a temporary feature was assigned through some level l and a manual edit
+    is pending on a level younger than l - made before or after the
+    assignment (which refreshes level l and its ancestors only)"""
+    seg = []
     for e in evs:
         seg = [] if e["a"] == "rejuvenate" else seg + [e]
-    for e in seg:
-        if e["a"] == "settemp":
-            pend = e["l"] if pend is None else max(pend, e["l"])
-        elif e["a"] in ("exclude", "include") and pend is not None \
-                and e["l"] > pend:
-            return True
-    return False
+    lv = [e["l"] for e in seg if e["a"] == "settemp"]
+    if not lv:
+        return False
+    return any(e["a"] in ("exclude", "include") and e["l"] > min(lv)
+               for e in seg)
 
 
 def signature(steps, i, obs, exp):
